@@ -1,5 +1,6 @@
 import Driver.Common
 import EgVerif.Spec.RateLimiter
+import EgVerif.Spec.RateLimiterExt
 open Lean EgVerif.RateLimiter
 
 namespace Driver.C09
@@ -47,7 +48,247 @@ def judge : Judge := liftJudge fun input obs => do
          nontrivial := rej || waited,
          sig := if spec then "" else "limit-exceeded-or-wait-bound" }
 
-def judges : List (String × Judge) := [("C09", judge)]
+/-! ### filter level (`pkg/filters/ratelimiter`) -/
+section Filter
+open EgVerif.RateLimiterFilter
+
+def parseSpec (j : Json) (pt pp : List Int) : Except String Spec := do
+  let ps ← getArr j "policies"
+  let pols ← (ps.toList.zipIdx).mapM fun (pj, i) => do
+    pure ({ name := (← getStr pj "name"), timeout := (← getStr pj "timeout"), refresh := (← getStr pj "refresh"),
+            limit := (← getInt pj "limit"), timeoutNs := pt.getD i 0, refreshNs := pp.getD i 0 } : Pol)
+  let us ← getArr j "urls"
+  let urls ← us.toList.mapM fun uj => do
+    pure ({ methods := (← getStrList uj "methods"), exact := (← getStr uj "exact"), pfx := (← getStr uj "prefix"),
+            regex := (← getStr uj "regex"), policyRef := (← getStr uj "policyRef") } : URLRule)
+  pure { policies := pols, defaultRef := (← getStr j "defaultRef"), urls := urls }
+
+structure LimObs where
+  id : Nat
+  L : Int
+  T : Int
+  P : Int
+  tokens : Int
+deriving DecidableEq, Repr
+
+def parseLims (o : Json) : Except String (List LimObs) := do
+  let a ← getArr o "lims"
+  a.toList.mapM fun l => do
+    pure { id := (← getNat l "id"), L := (← getInt l "L"), T := (← getInt l "T"), P := (← getInt l "P"),
+           tokens := (← getInt l "tokens") }
+
+def limsOf (rls : List (Option Nat)) (h : Heap) : List LimObs :=
+  rls.map fun r => match r with
+    | none => ⟨0, 0, 0, 0, 0⟩
+    | some id => match heapGet h id with
+      | some l => ⟨id, l.policy.L, l.policy.T, l.policy.P, l.state.tokens⟩
+      | none => ⟨id, 0, 0, 0, 0⟩
+
+structure FState where
+  cur : Option Gen := none
+  heap : Heap := []
+  next : Nat := 1
+  agree : Bool := true
+  spec : Bool := true
+  sig : String := ""
+  note : String := ""
+  tags : List String := []
+  lastLims : List LimObs := []     -- observed limiters of the current generation after the last step
+  dead : Bool := false
+  desync : Bool := false          -- a timing-dependent request was served: token counts no longer compared
+
+def FState.fail (s : FState) (sg nt : String) : FState :=
+  if s.spec then { s with spec := false, sig := sg, note := nt } else s
+
+def hourNs : Int := 60000000000
+
+def filterStep (s : FState) (stepIn obs : Json) : Except String FState := do
+  if s.dead then return s
+  let kind := optStr obs "kind"
+  let panic := optStr obs "panic"
+  if kind == "skip" then return { s with tags := "invalid-spec-skipped" :: s.tags }
+  if kind == "reload" then
+    let pt ← getIntList obs "parsedT"
+    let pp ← getIntList obs "parsedP"
+    let sp ← parseSpec (← stepIn.getObjVal? "reload") pt pp
+    let st := reload sp s.cur s.heap s.next
+    let dupNew := decide (sp.urls.eraseDups.length ≠ sp.urls.length)
+    let tagsR := (if s.cur.isSome then ["inherit"] else ["init"]) ++ (if dupNew then ["duplicate-rule"] else [])
+    if panic != "" then
+      let s1 := { s with agree := s.agree && st.panicked, dead := true, tags := "reload-panic" :: tagsR ++ s.tags }
+      return s1.fail (if dupNew then "filter:reload-panic:duplicate-rule" else "filter:reload-panic") panic
+    let got ← parseLims obs
+    let prevGot ← getIntList obs "prev"
+    let want := limsOf st.rls st.heap
+    let mask := fun (l : LimObs) => if s.desync then { l with tokens := 0 } else l
+    let agree := !st.panicked && decide (got.map mask = want.map mask) && decide (prevGot = ((match s.cur with | some g => g.rls | none => []) : List (Option Nat)).map (fun r => ((r.getD 0 : Nat) : Int)))
+    -- property: an unchanged rule (same rule, same policy content) keeps its limiter object and
+    -- state; a new / changed one gets a fresh limiter with the documented defaults
+    let mut s1 := { s with agree := s.agree && agree, tags := tagsR ++ s.tags }
+    let prevLims := s.lastLims
+    let mut carried := false
+    let mut fresh := false
+    for (u, g) in sp.urls.zip got do
+      let carriedFrom : Option LimObs := match s.cur with
+        | none => none
+        | some pg =>
+          (pg.spec.urls.zip prevLims).find? (fun (pu, _) => decide (pu = u) && isSamePolicy sp pg.spec u.policyRef)
+            |>.map (·.2)
+      match carriedFrom with
+      | some pl =>
+        carried := true
+        unless g.id == pl.id && g.tokens == pl.tokens && g.id != 0 do
+            s1 := s1.fail "filter:reload-lost-state" s!"rule {repr u} unchanged but limiter {repr pl} became {repr g}"
+      | none =>
+        fresh := true
+        let pol := (bindPolicy sp u).map limiterPolicy
+        let isNew := prevLims.all (fun pl => pl.id != g.id) && g.id != 0
+        unless isNew && g.tokens == 0 && some (⟨g.L, g.P, g.T⟩ : Policy) == pol do
+          s1 := s1.fail "filter:reload-not-fresh" s!"rule {repr u} changed/new but limiter is {repr g}"
+    return { s1 with cur := some ⟨sp, st.rls⟩, heap := st.heap, next := st.next, lastLims := got,
+                     tags := (if carried then ["carried-over"] else []) ++ (if fresh then ["fresh-limiter"] else []) ++ s1.tags }
+  if kind == "req" then
+    let some g := s.cur | throw "req before init"
+    if panic != "" then
+      return ({ s with agree := false, dead := true }).fail "filter:handle-panic" panic
+    let msJ ← getArr obs "matches"
+    let ms ← msJ.toList.mapM (·.getBool?)
+    let result := optStr obs "result"
+    let status := (optInt obs "status").toNat
+    let got ← parseLims obs
+    let timing := s.lastLims.any (fun l => l.id != 0 && l.P < hourNs)
+    let mut s1 := s
+    match handle (fun _ => 0) ms g.rls s.heap with
+    | none => s1 := { s1 with agree := false, note := "model: nil limiter" }
+    | some (h', out) =>
+      if timing then s1 := { s1 with desync := true }
+      unless timing || s.desync do
+        let ok := out.result == result && out.status.getD 0 == status && decide (limsOf g.rls h' = got)
+        s1 := { s1 with agree := s1.agree && ok, heap := h' }
+    -- property, on the observed behaviour
+    let before := s.lastLims
+    let first := (ms.zip before).find? (·.1)
+    let changed := (before.zip got).filter (fun (a, b) => a.id != b.id || a.tokens != b.tokens)
+    match first with
+    | none =>
+      unless result == "" && status == 0 && (timing || changed.isEmpty) do
+        s1 := s1.fail "filter:unmatched-limited" s!"no rule matches but result={result} status={status}"
+      s1 := { s1 with tags := "unmatched" :: s1.tags }
+    | some (_, l) =>
+      unless timing do
+        -- every request is in cycle 0: rejected iff the horizon L*(T/P+1) is full
+        let full := decide (l.tokens ≥ l.L * (l.T / l.P + 1))
+        unless (result == "rateLimited") == full do
+          s1 := s1.fail "filter:wrong-decision" s!"first matching limiter {repr l} result={result}"
+        unless changed.all (fun (a, _) => a.id == l.id) do
+          s1 := s1.fail "filter:other-rule-consumed" s!"limiters other than the first matching rule's changed"
+      s1 := { s1 with tags := "matched" :: s1.tags }
+    unless (result == "rateLimited") == (status == 429) && (result == "" || result == "rateLimited") do
+      s1 := s1.fail "filter:429-mapping" s!"result={result} status={status}"
+    if result == "rateLimited" then
+      unless optStr obs "header" == "too-many-requests" do
+        s1 := s1.fail "filter:429-mapping" "X-EG-Rate-Limiter header missing"
+      s1 := { s1 with tags := "429" :: s1.tags }
+    return { s1 with lastLims := got, tags := (if timing then ["timing-dependent"] else []) ++ s1.tags }
+  throw s!"unknown step kind {kind}"
+
+def judgeFilter : Judge := liftJudge fun input obs => do
+  match obsPanic obs with
+  | some m => pure { agree := false, spec := false, sig := "filter:harness-panic", note := m }
+  | none =>
+  let steps ← getArr input "steps"
+  let os ← getArr obs "steps"
+  let mut s : FState := {}
+  for (i, o) in steps.toList.zip os.toList do
+    s ← filterStep s i o
+  let tags := s.tags.eraseDups
+  pure { agree := s.agree, spec := s.spec, tags := tags, sig := s.sig, note := s.note,
+         nontrivial := tags.contains "429" && tags.contains "carried-over" }
+
+end Filter
+
+/-! ### MultiRateLimiter (`pkg/util/ratelimiter`) and the MQTT `Limiter` (`pkg/object/mqttproxy`) -/
+
+def judgeMulti : Judge := liftJudge fun input obs => do
+  let Ls ← getIntList input "Ls"
+  let P ← getInt input "P"
+  let T ← getInt input "T"
+  let arr ← getIntList input "arrivals"
+  let cj ← getArr input "counts"
+  let cntsRaw ← cj.toList.mapM fun c => match c with
+    | .null => pure ([] : List Int)
+    | _ => do (← c.getArr?).toList.mapM (·.getInt?)
+  let cnts := (List.range arr.length).map (fun i => cntsRaw.getD i [])
+  match obsPanic obs with
+  | some m => pure { agree := false, spec := false, sig := "multi:panic", note := m }
+  | none =>
+  let p : MPolicy := { Ls := Ls, P := P, T := T }
+  let got ← (← getArr obs "res").toList.mapM fun e => do
+    let a ← e.getArr?
+    unless a.size == 3 do throw "res entry"
+    let b : Int ← a[0]!.getInt?
+    let w : Int ← a[1]!.getInt?
+    let er : Int ← a[2]!.getInt?
+    pure ({ permitted := b != 0, wait := w, err := er != 0 } : MOut)
+  let want := mrun p (minit p) (arr.zip cnts)
+  let agree := decide (got = want)
+  -- property (timeout 0): every admission is immediate; per period and dimension the admitted
+  -- amount stays below limit + largest admitted request (so ≤ limit where every request asks 1)
+  let wellFormed := cnts.all (fun c => c.length == Ls.length && c.all (· ≥ 0)) && Ls.all (· > 0)
+  let spec :=
+    if T == 0 && wellFormed then
+      got.length == arr.length && got.all (fun o => !o.err && (!o.permitted || o.wait == 0)) &&
+      (List.range Ls.length).all (fun d =>
+        let h : NHist := (arr.zip (cnts.zip got)).map (fun (a, c, o) => (a, c.getD d 0, o.permitted))
+        overshootOk (Ls.getD d 1) P h)
+    else true
+  let rej := got.any (fun o => !o.permitted && !o.err)
+  let tags := (if T == 0 then ["T=0"] else ["T>0"]) ++ (if rej then ["reject"] else [])
+    ++ (if got.any (·.err) then ["arity-error"] else []) ++ (if got.any (fun o => o.wait > 0 && o.permitted) then ["wait"] else [])
+    ++ [s!"dims={Ls.length}"]
+  pure { agree := agree, spec := spec, tags := tags, nontrivial := rej,
+         expected := Json.arr (want.map (fun o => Json.arr #[Json.num (if o.permitted then 1 else 0), Json.num o.wait,
+           Json.num (if o.err then 1 else 0)])).toArray,
+         sig := if spec then "" else "multi:period-bound-exceeded" }
+
+def judgeMqtt : Judge := liftJudge fun input obs => do
+  let isNil := optBool input "nil"
+  let rr ← getInt input "requestRate"
+  let br ← getInt input "bytesRate"
+  let tp ← getInt input "timePeriod"
+  let pk ← getIntList input "packets"
+  match obsPanic obs with
+  | some m => pure { agree := false, spec := false, sig := "mqtt:panic", note := m }
+  | none =>
+  let got := (← getIntList obs "permitted").map (· != 0)
+  let kind := optStr obs "kind"
+  let l := newLimiter (if isNil then none else some ⟨rr, br, tp⟩)
+  let wantKind := match l with
+    | .none => "none" | .multi .. => "multi" | .request .. => "request" | .byte .. => "byte"
+  let want := l.run (pk.map (fun n => (0, n)))
+  let wantPol : Int × Int × List Int := match l with
+    | .none => (0, 0, []) | .multi p _ => (p.P, p.T, p.Ls)
+    | .request p _ => (p.P, p.T, [p.L]) | .byte p _ => (p.P, p.T, [p.L])
+  let gotPol : Int × Int × List Int := (optInt obs "P", optInt obs "T", (getIntList obs "Ls").toOption.getD [])
+  let agree := decide (got = want) && kind == wantKind && decide (gotPol = wantPol)
+  -- property: per period at most requestRate packets; admitted bytes < bytesRate + largest admitted packet
+  let adm := (pk.zip got).filter (·.2) |>.map (·.1)
+  let bytes := adm.foldl (· + ·) 0
+  let mx := adm.foldl (fun a b => if b > a then b else a) 0
+  let limited := !isNil
+  -- "per period": the limiter's period is the configured one (whole seconds, at least 1) and nothing waits
+  let polOk := kind == "none" || (gotPol.1 == (if tp > 0 then tp else 1) * 1000000000 && gotPol.2.1 == 0)
+  let spec := got.length == pk.length && polOk &&
+    (!(limited && rr > 0) || decide ((adm.length : Int) ≤ rr)) &&
+    (!(limited && br > 0) || decide (bytes < br + mx)) &&
+    (!(isNil || (rr ≤ 0 && br ≤ 0)) || got.all id)
+  pure { agree := agree, spec := spec, tags := [wantKind] ++ (if got.any (!·) then ["reject"] else []),
+         nontrivial := got.any (!·),
+         expected := Json.arr (want.map (fun b => Json.num (if b then 1 else 0))).toArray,
+         sig := if spec then "" else "mqtt:period-bound-exceeded" }
+
+def judges : List (String × Judge) :=
+  [("C09", judge), ("core", judge), ("filter", judgeFilter), ("multi", judgeMulti), ("mqtt", judgeMqtt)]
 
 end Driver.C09
 
